@@ -627,7 +627,7 @@ func (p *provRun) opDelete(nodes []*v1.Node) {
 }
 
 func (p *provRun) judgeDelete(nodes []*v1.Node, k *KnownASG, err error) {
-	if kk := p.w.known[p.g.ASG]; !k.Valid && k.Ambiguous || kk != nil && kk.Ambiguous {
+	if kk := p.w.known[p.g.ASG]; !k.Valid && k.Ambiguous || k.AmbiguousMembers || kk != nil && (kk.Ambiguous || kk.AmbiguousMembers) {
 		p.st.Probe("delete judged without a known cloud state (ambiguous)")
 		return
 	}
